@@ -79,6 +79,34 @@ static HOOK: std::sync::Once = std::sync::Once::new();
 /// `exclusively_owned_areas`): rayon re-raises them on the calling simulated task
 /// without going through the hook again, so the message is kept here as a fallback.
 static FOREIGN_PANIC: Mutex<Option<String>> = Mutex::new(None);
+thread_local! {
+    /// first panic raised on a driver thread itself (outside any simulated execution)
+    static DRIVER_PANIC: std::cell::RefCell<Option<String>> = const { std::cell::RefCell::new(None) };
+}
+
+/// Run one evaluation of an engine; a panic that escapes it (library code called outside a
+/// simulated execution, or an oracle tripping over a malformed answer) is reported as a
+/// violation of the engine's property instead of killing the checker.
+pub fn guarded(property: &str, f: impl FnOnce() -> crate::common::Outcome) -> crate::common::Outcome {
+    DRIVER_PANIC.with(|p| *p.borrow_mut() = None);
+    match panic::catch_unwind(AssertUnwindSafe(f)) {
+        Ok(o) => o,
+        Err(_) => {
+            let msg = DRIVER_PANIC.with(|p| p.borrow_mut().take()).unwrap_or_else(|| "<panic>".into());
+            let loc = msg.rsplit(" @ ").next().unwrap_or("").to_string();
+            let short = loc.rsplit("/src/").next().unwrap_or(&loc).to_string();
+            let mut out = crate::common::Outcome::default();
+            out.violation = Some(crate::common::Violation::new(
+                property,
+                "panic",
+                "evaluation",
+                &short,
+                format!("panic outside a simulated execution while evaluating the case: {msg}"),
+            ));
+            out
+        }
+    }
+}
 
 thread_local! {
     static IS_SIM_THREAD: Cell<bool> = const { Cell::new(false) };
@@ -114,8 +142,16 @@ pub fn install_quiet_hook() {
                         *p = Some(format!("{msg} @ {loc}"));
                     }
                 });
-            } else if let Ok(mut g) = FOREIGN_PANIC.lock() {
-                *g = Some(format!("{msg} @ {loc}"));
+            } else {
+                DRIVER_PANIC.with(|p| {
+                    let mut p = p.borrow_mut();
+                    if p.is_none() {
+                        *p = Some(format!("{msg} @ {loc}"));
+                    }
+                });
+                if let Ok(mut g) = FOREIGN_PANIC.lock() {
+                    *g = Some(format!("{msg} @ {loc}"));
+                }
             }
             if std::env::var("SIM_VERBOSE_PANIC").is_ok() {
                 eprintln!("panic: {msg} @ {loc}");
